@@ -10,7 +10,6 @@
 # information at https://github.com/ddsmt/ddSMT/blob/master/LICENSE.
 
 import io
-import textwrap
 import typing
 
 from .nodes import Node
@@ -141,6 +140,46 @@ def __write_smtlib(file: typing.TextIO, expr: Node):
         visit.extend(x for x in reversed(ex.data))
 
 
+def __write_smtlib_wrapped(file: typing.TextIO, expr: Node, width=78):
+    """Write the given smtlib expression into the file object, starting a new
+    (indented) line whenever the next token does not fit into ``width``
+    columns. Lines are only broken between tokens, never within a token."""
+    visit = [expr]
+    needs_space = False
+    col = 0
+    while visit:
+        ex = visit.pop()
+        if ex is None:
+            token = ')'
+        elif not ex.is_leaf():
+            token = '('
+        elif ex.data == '':
+            continue
+        elif ex.data[0] == ';':
+            token = f'\n{ex.data}\n'
+        else:
+            token = ex.data
+
+        if needs_space and ex is not None:
+            if col > 2 and col + 1 + len(token.split('\n', 1)[0]) > width:
+                file.write('\n  ')
+                col = 2
+            else:
+                file.write(' ')
+                col += 1
+        file.write(token)
+        newline = token.rfind('\n')
+        if newline >= 0:
+            col = len(token) - newline - 1
+        else:
+            col += len(token)
+
+        needs_space = token != '('
+        if token == '(':
+            visit.append(None)
+            visit.extend(x for x in reversed(ex.data))
+
+
 def __write_smtlib_pretty(file: typing.TextIO, expr: Node):
     """Write the given smtlib expression in one line into the file object."""
     visit = [(expr, False)]
@@ -196,18 +235,15 @@ def write_smtlib(file: typing.TextIO, exprs: typing.List[Node]):
         # pretty print
         for expr in exprs:
             __write_smtlib_pretty(file, expr)
+    elif options.args().wrap_lines:
+        # wrap every line, but only between tokens
+        for expr in exprs:
+            __write_smtlib_wrapped(file, expr)
+            file.write('\n')
     else:
         # regular writeing
-        lines = [__write_smtlib_str(expr) for expr in exprs]
-        if options.args().wrap_lines:
-            # wrap every line
-            lines = map(
-                lambda line: textwrap.wrap(
-                    line, width=78, subsequent_indent='  '), lines)
-            # and flatten the list
-            lines = [sub for line in lines for sub in line]
-        for line in lines:
-            file.write(line)
+        for expr in exprs:
+            file.write(__write_smtlib_str(expr))
             file.write('\n')
 
 
